@@ -2,9 +2,14 @@ from . import COMMON_TB
 
 CONFIG = dict(
     harness="c17",
-    comparisons=[
-        dict(name="model", code=1700, kind="eq"),
-        dict(name="spec", code=1701, kind="eq", predicate=True),
+    suites=[
+        dict(suffix="", comparisons=[
+            dict(name="model", code=1700, kind="eq"),
+            dict(name="spec", code=1701, kind="eq", predicate=True),
+        ]),
+        dict(suffix="-race", comparisons=[
+            dict(name="race", code=1702, kind="holds", predicate=True),
+        ]),
     ],
     trusted_base=COMMON_TB,
     assumptions=[
